@@ -43,25 +43,46 @@ ENTRY = T + (1,)
 T2 = (1, 3, 6)
 
 
-def build_db(value):
+def build_db(value, other=None):
     """the value under test sits at a scalar, inside a walked subtree and in a
-    table cell; neighbours have other types"""
+    table cell; neighbours have other types - or, in the pair family, are all
+    the one *other* value (one result then holds both)"""
+    n = (lambda default: default) if other is None else (lambda default: other)
     return {
         (1, 3, 1, 1, 0): value,
-        (1, 3, 1, 2, 0): ("int", 42),
-        (1, 3, 2, 1, 0): ("str", b"x"),
-        ENTRY + (1, 1): ("int", 1),
+        (1, 3, 1, 2, 0): n(("int", 42)),
+        (1, 3, 2, 1, 0): n(("str", b"x")),
+        ENTRY + (1, 1): n(("int", 1)),
         ENTRY + (1, 2): value,
         ENTRY + (2, 1): value,
-        ENTRY + (2, 2): ("str", b"y"),
+        ENTRY + (2, 2): n(("str", b"y")),
         # a sparse table: row 1 lacks column 1, row 2 (the first one a
         # column-wise walk meets) lacks column 2, row 3 has both
         T2 + (1, 1, 2): value,
-        T2 + (1, 1, 3): ("int", 13),
-        T2 + (1, 2, 1): ("str", b"r1c2"),
+        T2 + (1, 1, 3): n(("int", 13)),
+        T2 + (1, 2, 1): n(("str", b"r1c2")),
         T2 + (1, 2, 3): value,
         (1, 3, 9, 1, 0): value,
     }
+
+
+# values of different kinds whose BER contents coincide or are tiny: every
+# ordered pair of them shares results in the pair family
+SMALL = [("int", 0), ("int", 43), ("str", b"\x00"), ("str", b"+"), ("oid", (0, 0)), ("oid", (1, 3)), ("c32", 0), ("c32", 43), ("g32", 0), ("g32", 43),
+         ("tt", 0), ("tt", 43), ("opaque", b"\x00"), ("opaque", b"+"), ("c64", 0), ("c64", 43), ("null", None), ("tt", 29), ("tt", 30)]
+PAIR_METHODS = ("multiget", "walk", "multiwalk", "bulkwalk", "bulkget", "table", "table-sparse", "bulktable")
+
+
+def pair_cases():
+    out = []
+    for a in SMALL:
+        for b in SMALL:
+            if a == b:
+                continue
+            for label, op in method_ops(a):
+                if label in PAIR_METHODS:
+                    out.append((label, op, a, b))
+    return out
 
 
 def oid_s(o):
@@ -207,10 +228,10 @@ def request_view(entry):
     return (msg.get("version"), msg.get("community"), pdu.get("tag"), pdu.get("f1"), pdu.get("f2"), tuple(map(tuple, pdu.get("varbinds", ()))))
 
 
-def run_case(label, op, value):
+def run_case(label, op, value, other=None):
     from puresnmp import PyWrapper
 
-    db = build_db(value)
+    db = build_db(value, other)
     ag1 = ragent.Agent(db)
     client1, _ = world.make_client(creds(), ag1.handle)
     raw, raw_exc = ops.run_op(client1, op)
@@ -387,6 +408,7 @@ def run_faulty(acc):
 def shards(tier):
     return (
         [{"part": i, "of": 8, "tier": tier} for i in range(8)]
+        + [{"pairs": True, "part": i, "of": 8, "tier": tier} for i in range(8)]
         + [{"sequence": True, "tier": tier}]
         + [{"value_sequence": True, "reverse": r, "tier": tier} for r in (False, True)]
         + [{"faulty": True, "tier": tier}]
@@ -402,6 +424,16 @@ def run_shard(params, acc):
         return
     if params.get("faulty"):
         run_faulty(acc)
+        return
+    if params.get("pairs"):
+        for label, op, value, other in pair_cases()[params["part"] :: params["of"]]:
+            violations, nreq = run_case(label, op, value, other)
+            acc.count(evaluations=1, nontrivial=1, states=1, transitions=max(nreq, 1), traces=1)
+            acc.outcome("ok" if not violations else "%s/%s" % (label, violations[0]["kind"]))
+            acc.sample({"method": label, "value": value, "other": other, "requests": nreq})
+            for v in violations:
+                v["case"] = {"label": label, "value": value, "other": other}
+                acc.violation(v)
         return
     for label, op, value in all_cases()[params["part"] :: params["of"]]:
         violations, nreq = run_case(label, op, value)
@@ -452,13 +484,18 @@ def replay(case):
         value = ("oid", tuple(value[1]))
     label = case["label"]
     op = dict(method_ops(value))[label]
-    return run_case(label, op, value)[0]
+    other = case.get("other")
+    if other is not None:
+        other = tuple(other)
+        if other[0] == "oid":
+            other = ("oid", tuple(other[1]))
+    return run_case(label, op, value, other)[0]
 
 
 def meta(tier):
     return {
         "level": "model_checking",
-        "rule": "full product: PyWrapper method (get, getnext, multiget, set, multiset, walk, multiwalk, bulkwalk, bulkget, table, bulktable) x value kind (10 settable kinds, 1-2 boundary values each; noSuchObject/noSuchInstance arise in multiget, endOfMibView in bulkget scalars) placed at scalar, list, mapping, table-cell, bulk-scalar and bulk-listing positions; each case runs the wrapper and the raw client against two fresh copies of the reference agent; states = cases, transitions = exchanges",
+        "rule": "full product: PyWrapper method (get, getnext, multiget, set, multiset, walk, multiwalk, bulkwalk, bulkget, table, bulktable) x value kind (10 settable kinds, 1-2 boundary values each; noSuchObject/noSuchInstance arise in multiget, endOfMibView in bulkget scalars) placed at scalar, list, mapping, table-cell, bulk-scalar and bulk-listing positions; pair family: every ordered pair of 19 small values of different kinds (equal or one-octet BER contents) sharing one result of the multi-value methods; each case runs the wrapper and the raw client against two fresh copies of the reference agent; states = cases, transitions = exchanges",
         "exhaustive": True,
         "bounds": {"values_per_kind": 2},
         "assumptions": ["reference pythonisation map in vmc/ref/models.py", "BulkResult is accepted as the documented container of bulkget"],
